@@ -80,5 +80,11 @@ def shiftKeys (g : RGraph) (k : Nat) : RGraph :=
     edges := g.edges.map (fun e => { e with u := e.u + k, v := e.v + k }),
     maxResid := g.maxResid }
 
+/-- renumber every resid `r` to `r + d` (and `max_resid` with it; keys, names, edges unchanged) -/
+def shiftResids (g : RGraph) (d : Nat) : RGraph :=
+  { nodes := g.nodes.map (fun n => { n with resid := n.resid + d }),
+    edges := g.edges,
+    maxResid := g.maxResid + d }
+
 end RGraph
 end PolyplyVerif
